@@ -245,7 +245,7 @@ impl XFuncSpec {
         })
     }
 
-    fn arg_len_range(&self) -> (usize, usize) {
+    pub(crate) fn arg_len_range(&self) -> (usize, usize) {
         let max = self.params.len();
         let min = self.params.iter().take_while(|a| a.required).count();
         (min, max)
@@ -496,6 +496,15 @@ impl XType {
                 .into()
             }
             Self::XGeneric(ref a) => bind.get(a).cloned().unwrap_or_else(|| self.clone()),
+            Self::XCallable(spec) => Self::XCallable(XCallableSpec {
+                param_types: spec
+                    .param_types
+                    .iter()
+                    .map(|t| t.resolve_bind(bind, tail))
+                    .collect(),
+                return_type: spec.return_type.resolve_bind(bind, tail),
+            })
+            .into(),
             Self::XTail(types) => match tail {
                 None => unreachable!(),
                 Some(t) => {
